@@ -86,6 +86,7 @@ type Sched struct {
 	Deadlock    bool
 	Stalled     bool        // see schedStall
 	Class       string      // class of the scheduler's choice points (default "sched")
+	last        *mthread    // the thread that ran last
 	Panics      []string    // panics of modelled threads
 	foreign     interface{} // an explorer sentinel that surfaced inside a thread
 	Steps       int
@@ -273,7 +274,12 @@ func (s *Sched) enabled() []transition {
 // callers skip the case instead of judging it.
 type schedStall struct{}
 
+func (s *Sched) involves(tr transition, t *mthread) bool {
+	return tr.t == t || tr.sender == t || tr.recv == t
+}
+
 func (s *Sched) runThread(t *mthread) {
+	s.last = t
 	s.cur = t
 	t.pending = nil
 	t.arrived = false
@@ -401,6 +407,12 @@ func (s *Sched) Run() {
 		cls := s.Class
 		if cls == "" {
 			cls = "sched"
+		}
+		// canonical order: the transitions of the thread that ran last come first (choice 0 lets it go on: a departure
+		// from the default is a context switch, and the thread switched to then keeps running - a preemption bound in
+		// the sense of CHESS), the others follow in label order
+		if s.last != nil {
+			sort.SliceStable(en, func(i, j int) bool { return s.involves(en[i], s.last) && !s.involves(en[j], s.last) })
 		}
 		tr := en[s.x.Choose(len(en), cls)]
 		s.Trace = append(s.Trace, tr.label)
